@@ -138,6 +138,30 @@ LawRigid(a, tok, sn, sd) ==
   /\ PtEq(BoundaryAt(b.c, b.l, sn, sd), MoveRat(BoundaryAt(a.c, a.l, sn, sd), m.t, m.q))
   /\ PtEq(BoundaryAt(b.c, b.r, sn, sd), MoveRat(BoundaryAt(a.c, a.r, sn, sd), m.t, m.q))
 
+(* ------------------------------ (2c) similar lanelets, array representations -------------------------------- *)
+(* Arc-length geometry is invariant under similarities.  Multiplying every vertex by the Gaussian integer p + qi   *)
+(* maps lattice polylines to lattice polylines and multiplies every length by sqrt(U), U = p^2 + q^2: the image of  *)
+(* an integer-length polyline has segments of length k * sqrt(U) (sqrt(2)-, sqrt(5)-, sqrt(10)-type diagonals).    *)
+(* The driver hands the IMAGE to the library (as int64 / int32 / float32 / float64 / Fortran-ordered / sliced      *)
+(* arrays - all represent lattice points exactly) and maps the answers back: lengths / sqrt(U), points by the      *)
+(* inverse map; the expected values are those of the pre-image, computed here.                                    *)
+SimOf(U) == CASE U = 1 -> <<1, 0>> [] U = 2 -> <<1, 1>> [] U = 5 -> <<1, 2>> [] U = 10 -> <<1, 3>>
+SimPt(v, pq)   == <<pq[1] * v[1] - pq[2] * v[2], pq[2] * v[1] + pq[1] * v[2]>>
+SimPoly(P, pq) == [i \in 1..Len(P) |-> SimPt(P[i], pq)]
+(* the similarity scales squared lengths by U and commutes with interpolation (so the abstraction is exact) *)
+LawSimilar(a, U, sn, sd) ==
+  LET pq == SimOf(U)  i == SegOf(a.c, sn, sd)  num == ParamNum(a.c, i, sn, sd)  den == ParamDen(a.c, i, sd)
+      img(Q) == Lerp(SimPoly(Q, pq), i, num, den)
+      pre(Q) == Lerp(Q, i, num, den)
+      same(Q) == /\ img(Q)[1][1] = pq[1] * pre(Q)[1][1] - pq[2] * pre(Q)[2][1]
+                 /\ img(Q)[2][1] = pq[2] * pre(Q)[1][1] + pq[1] * pre(Q)[2][1]
+  IN /\ pq[1] * pq[1] + pq[2] * pq[2] = U
+     /\ \A k \in 1..Len(a.c) - 1 : SqLen(SimPt(a.c[k], pq), SimPt(a.c[k + 1], pq)) = U * SqLen(a.c[k], a.c[k + 1])
+     /\ same(a.c) /\ same(a.l) /\ same(a.r)
+(* precision a returned float must have: arrays of float32 carry float32 precision (1e-5 band), all others 1e-9. *)
+(* The driver logs the class of every value: 2 = within 1e-9, 1 = within 1e-5 (relative), 0 = off.               *)
+PrecOf(dt) == IF dt = "f32" THEN 1 ELSE 2
+
 (* ------------------------------ (3) routes ----------------------------------------- *)
 (* G: function node -> set of successor nodes; len: node -> length; R: sequence of paths (sequences of nodes). *)
 (* The contract is a predicate on R, not one answer; duplicates and any order are allowed.                     *)
@@ -145,7 +169,8 @@ Rev(G) == [n \in DOMAIN G |-> {m \in DOMAIN G : n \in G[m]}]
 RECURSIVE Acc(_, _, _)
 Acc(len, p, k) == IF k = 0 THEN 0 ELSE Acc(len, p, k - 1) + len[p[k]]       \* accumulated length of p[1..k]
 Idx(R) == 1..Len(R)
-RoutesClause(G, len, start, range, R) ==
+(* lengths are in units of sqrt(U) (U = 1: plain integers): Acc * sqrt(U) >= range  <=>  Acc^2 * U >= range^2    *)
+RoutesClause(G, len, start, range, R, U) ==
   IF \E i \in Idx(R) : Len(R[i]) = 0 \/ R[i][1] \notin G[start]
     THEN "first"                                   \* a path does not start at a direct successor
   ELSE IF \E i \in Idx(R) : \E k \in 1..Len(R[i]) - 1 : R[i][k] \notin DOMAIN G \/ R[i][k + 1] \notin G[R[i][k]]
@@ -154,10 +179,10 @@ RoutesClause(G, len, start, range, R) ==
     THEN "start"                                   \* a path revisits the start lanelet
   ELSE IF \E i \in Idx(R) : \E j, k \in 1..Len(R[i]) : j < k /\ R[i][j] = R[i][k]
     THEN "loop"                                    \* a path is not loop-free
-  ELSE IF \E i \in Idx(R) : \E k \in 1..Len(R[i]) - 1 : Acc(len, R[i], k) >= range
+  ELSE IF \E i \in Idx(R) : \E k \in 1..Len(R[i]) - 1 : Acc(len, R[i], k) * Acc(len, R[i], k) * U >= range * range
     THEN "range"                                   \* a path was extended although its length had reached the range
   ELSE IF \E s \in G[start] : \A i \in Idx(R) : R[i][1] # s
     THEN "cover"                                   \* a direct successor starts no path
   ELSE ""
-ValidRoutes(G, len, start, range, R) == RoutesClause(G, len, start, range, R) = ""
+ValidRoutes(G, len, start, range, R, U) == RoutesClause(G, len, start, range, R, U) = ""
 =================================================================================
